@@ -563,12 +563,22 @@ func (g *gen) stCases(n int) []stCase {
 			case k < 88:
 				i := pick()
 				op = []interface{}{"ack", i}
-				res = []interface{}{"b", objs[i].Ack()}
+				var r bool
+				if protect(func() { r = objs[i].Ack() }) {
+					res = []interface{}{"panic"}
+				} else {
+					res = []interface{}{"b", r}
+				}
 				g.count("script-op=ack")
 			case k < 92:
 				i := pick()
 				op = []interface{}{"nack", i}
-				res = []interface{}{"b", objs[i].Nack()}
+				var r bool
+				if protect(func() { r = objs[i].Nack() }) {
+					res = []interface{}{"panic"}
+				} else {
+					res = []interface{}{"b", r}
+				}
 				g.count("script-op=nack")
 			default:
 				i, j := pick(), pick()
